@@ -191,6 +191,15 @@ def segIdx (H : Rat → Rat) (fs : List Frag) : Option Rat :=
   let pn : Rat := (totPost fs : Rat) / (tot : Rat)
   if 0 < pn ∧ pn < 1 then some (1 - meanEntropy H fs / H pn) else some 0
 
+/-- The entropy term as the code guards it: `H` inside (0,1), 0 elsewhere. -/
+def guardH (H : Rat → Rat) (p : Rat) : Rat := if 0 < p ∧ p < 1 then H p else 0
+
+/-- Non-negative and concave on [0,1] (what the binary entropy is). -/
+structure ConcaveNonneg (G : Rat → Rat) : Prop where
+  nonneg : ∀ p, 0 ≤ G p
+  conc : ∀ x y lam : Rat, 0 ≤ x → x ≤ 1 → 0 ≤ y → y ≤ 1 → 0 ≤ lam → lam ≤ 1 →
+    lam * G x + (1 - lam) * G y ≤ G (lam * x + (1 - lam) * y)
+
 /-- Exact classification used by the driver: `some 0` / `some 1` when the value is forced. -/
 def segExact (fs : List Frag) : Option Nat :=
   let tp := totPre fs
